@@ -107,6 +107,8 @@ def block_roles(run: Run, D: Blocks):
                 roles.setdefault("diagB", []).append(s)
             else:
                 roles.setdefault("other", []).append(s)
+        elif isinstance(v, Arr) and v.ndim == 2 and v.elem == sym.ZERO:
+            roles.setdefault("zero", []).append(s)  # an explicit diagonal-to-diagonal block (np.block assembly)
         elif isinstance(v, Arr) and v.ndim == 2:
             roles.setdefault("cross", []).append(s)
         else:
@@ -200,6 +202,16 @@ def check_tiling(rep, rule, run: Run, D: Blocks, fi):
                         f"{role} block is stored at rows [{sym.show(s['r0'])},{sym.show(s['r1'])}) × cols "
                         f"[{sym.show(s['c0'])},{sym.show(s['c1'])}) instead of rows [{sym.show(r0)},{sym.show(r1)}) × "
                         f"cols [{sym.show(c0)},{sym.show(c1)})")
+    for s in roles.get("zero", []):
+        pos_ok = all(sym.equal(x, y) for x, y in zip((s["r0"], s["r1"], s["c0"], s["c1"]), (M, total, N, total)))
+        if pos_ok:
+            rep.discharged(rule, fi, s["node"], "explicit zero block occupies the diagonal-to-diagonal corner "
+                                                "rows [M, M+N) × cols [N, M+N)")
+        elif ok:
+            rep.refuted(rule, fi, s["node"],
+                        f"a zero block is stored at rows [{sym.show(s['r0'])},{sym.show(s['r1'])}) × cols "
+                        f"[{sym.show(s['c0'])},{sym.show(s['c1'])}) instead of the diagonal-to-diagonal corner rows "
+                        f"[{sym.show(M)},{sym.show(total)}) × cols [{sym.show(N)},{sym.show(total)})")
     if roles.get("other"):
         for s in roles["other"]:
             rep.unmodelled(rule, fi, s["node"], "a block stored into the cost matrix has no recognised role")
